@@ -103,6 +103,24 @@ int main() {
         std::cout << "legacy " << hist.getMin() << " " << hist.getMax() << " " << hist.getInterval();
         for (double p : hist.getPdf()) std::cout << " " << p;
         std::cout << std::endl;
+      } else if (cmd == "legacyd") {
+        // legacyd <cnt> v...   a DEFAULT-constructed legacy Histogram (options_t defaults) processes the data
+        long cnt;
+        in >> cnt;
+        DataCollection<double> dc;
+        DataCollection<double>::array *a = dc.CreateArray("a");
+        for (long i = 0; i < cnt; ++i) {
+          double v;
+          in >> v;
+          a->push_back(v);
+        }
+        DataCollection<double>::selection sel;
+        sel.push_back(a);
+        Histogram hist;
+        hist.ProcessData(&sel);
+        std::cout << "legacy " << hist.getMin() << " " << hist.getMax() << " " << hist.getInterval();
+        for (double p : hist.getPdf()) std::cout << " " << p;
+        std::cout << std::endl;
       } else if (cmd == "legacy") {
         // legacy <n> <auto> <min> <max> <periodic> <normalize> <count> v...
         Histogram::options_t op;
